@@ -213,23 +213,63 @@ pub fn trace(args: &[String]) -> i32 {
     quiet_panics();
     let inp = arg_value(args, "--in").expect("--in");
     let outp = arg_value(args, "--out").expect("--out");
-    let ids = Ids::load(&arg_value(args, "--ids").expect("--ids"));
+    let ids_path = arg_value(args, "--ids").expect("--ids");
     let with_tokens = args.iter().any(|a| a == "--tokens");
+    let start = arg_num(args, "--start", 0) as usize;
+    let patience = arg_num(args, "--patience", 45);
     let home = std::env::temp_dir().join(format!("conform-home-{}", std::process::id()));
     std::fs::create_dir_all(&home).unwrap();
     std::env::set_var("XDG_DATA_HOME", &home);
-    let db = Db::in_memory().expect("in-memory db");
-    let mut out = Out::create(&outp);
-    let mut n = 0usize;
-    for (i, line) in read_lines(&inp).iter().enumerate() {
-        let src: String = serde_json::from_str(line).unwrap_or_else(|_| line.clone());
-        out.line(&record(&db, &src, i + 1, &ids, with_tokens));
-        n += 1;
+    let lines = read_lines(&inp);
+    let total = lines.len();
+    // The queries are evaluated by a worker thread; this thread waits for each record with a deadline.  A query the
+    // library never returns from is recorded as such, and the process ends (the stuck thread cannot be stopped);
+    // the driver resumes behind it with `--start`.
+    let (tx, rx) = std::sync::mpsc::channel::<Value>();
+    let worker_lines = lines.clone();
+    std::thread::Builder::new()
+        .stack_size(512 << 20)
+        .spawn(move || {
+            let ids = Ids::load(&ids_path);
+            let db = Db::in_memory().expect("in-memory db");
+            for (i, line) in worker_lines.iter().enumerate().skip(start) {
+                let src: String = serde_json::from_str(line).unwrap_or_else(|_| line.clone());
+                if tx.send(record(&db, &src, i + 1, &ids, with_tokens)).is_err() {
+                    break;
+                }
+            }
+        })
+        .expect("worker thread");
+    let mut out = if start > 0 {
+        Out::append(&outp)
+    } else {
+        Out::create(&outp)
+    };
+    let mut n = start;
+    let mut resume: Option<usize> = None;
+    while n < total {
+        // the first record also pays for building the database
+        let wait = std::time::Duration::from_secs(if n == start { patience + 60 } else { patience });
+        match rx.recv_timeout(wait) {
+            Ok(rec) => {
+                out.line(&rec);
+                n += 1;
+            }
+            Err(_) => {
+                let src: String = serde_json::from_str(&lines[n]).unwrap_or_else(|_| lines[n].clone());
+                out.line(&json!({"id": n + 1, "text": src, "src": char_names(&src), "res": [], "apps": [], "shown": [], "lookups": [], "desc": [],
+                                 "panic": format!("no result after {} s: the evaluation does not terminate", patience),
+                                 "toks": [], "toks_ok": false, "leaves": [], "tree": [], "tree_ok": false, "deep": false, "timeout": true}));
+                n += 1;
+                resume = Some(n);
+                break;
+            }
+        }
     }
     out.finish();
     let _ = std::fs::remove_dir_all(&home);
-    println!("{}", json!({"records": n}));
-    0
+    println!("{}", json!({"records": n, "total": total, "resume": resume}));
+    std::process::exit(0);
 }
 
 /// `conform c07-record --in FILE --out FILE`: every literal is given to the library's number parser,
